@@ -43,7 +43,10 @@ impl short_weierstrass::SWCurveConfig for Config {
     }
 
     fn mul_projective(p: &G1Projective, scalar: &[u64]) -> G1Projective {
-        let s = Self::ScalarField::from_sign_and_limbs(true, scalar);
+        // `scalar` is an arbitrary limb slice: it may be longer than the scalar field
+        // (leading zero limbs) or denote an integer >= r, so reduce it modulo r.
+        let bytes: ark_std::vec::Vec<u8> = scalar.iter().flat_map(|l| l.to_le_bytes()).collect();
+        let s = Self::ScalarField::from_le_bytes_mod_order(&bytes);
         GLVConfig::glv_mul_projective(*p, s)
     }
 
